@@ -155,7 +155,7 @@ CHECKERS = {"align": chk_align, "origin": chk_origin, "recorded": chk_recorded}
 
 def _cases(tier, seed):
     rng = np.random.default_rng(seed + 404)
-    K = 120 if tier == "quick" else 4000
+    K = 120 if tier == "quick" else 700
     for it in range(K):
         n = int(rng.integers(3, 15)) if it % 3 else int(rng.integers(3, 300 if tier == "quick" else 2000))
         sd = int(rng.integers(0, 10**9))
